@@ -99,9 +99,12 @@ extern void mpt_dispatch_fini(MPT_STRUCT(dispatch) *disp)
 	mpt_array_clone(&disp->_d, 0);
 	
 	if (disp->_err.cmd) {
-		disp->_err.cmd(disp->_err.arg, 0);
+		MPT_TYPE(event_handler) cmd = disp->_err.cmd;
+		void *arg = disp->_err.arg;
+		/* unregister first: the notification may emit events itself */
 		disp->_err.cmd = 0;
 		disp->_err.arg = 0;
+		cmd(arg, 0);
 	}
 	if ((ctx = disp->_ctx)) {
 		ctx->_vptr->unref(ctx);
